@@ -171,6 +171,23 @@ class Graph(object):
         self.same_chip = []          # [[v, ...]]
         self.sdram_max = 2000
         self.broadcasts = 0
+        # cube-structured keys: the nets that share a route get the keys of
+        # one aligned cube (XX01, 0X1X, ...) - what a bit-field layout gives
+        # them - and the cubes of different groups intersect, all of one
+        # generality: the covering minimiser can then rebuild each cube as
+        # one entry, and the entries of a table overlap without any being
+        # more general than another
+        self.cube_keys = t is not None and t.draw(6) == 0
+        # ... and a relay line (see the deploy engine), alone or among the
+        # other nets
+        self.cube_k = 1 + t.draw(3) if self.cube_keys else 0
+        self.cube_sparse = self.cube_keys and bool(t.draw(2))
+        self.relay = self.cube_keys and bool(t.draw(2))
+        self.relay_only = self.relay and bool(t.draw(2))
+        if self.cube_keys:
+            self.new_p = 0.1
+            self.dense_bits = 0
+            self.high_keys = False
 
     def describe(self):
         return "%d vertices (%s), %d nets, %d location, %d same-chip groups, %d " \
@@ -253,6 +270,59 @@ def add_net(t, g, par, max_fanout=12):
         # the caller lists the very same net twice
         g.nets.append(g.nets[t.draw(len(g.nets))])
     return net
+
+
+def assign_cube_keys(t, g):
+    """Replace the keys of g's nets by cube-structured ones (see Graph)."""
+    db = 4 + t.draw(3)
+    k = g.cube_k
+    groups = collections.OrderedDict()
+    seen = set()
+    for net in g.nets:
+        if id(net) in seen:
+            continue
+        seen.add(id(net))
+        sig = (vid(net.source), tuple(sorted({vid(s) for s in net.sinks})))
+        groups.setdefault(sig, []).append(net)
+    base = t.draw(1 << 12) << 12
+    used = set()
+    spare = 1 << db
+    order = list(groups.values())
+    for i in range(len(order) - 1, 0, -1):
+        j = t.draw(i + 1)
+        order[i], order[j] = order[j], order[i]
+    prev = None
+    for grp in order:
+        remaining = list(grp)
+        for _ in range(6):
+            if not remaining:
+                break
+            pos = list(range(db))
+            xs = [pos.pop(t.draw(len(pos))) for _ in range(k)]
+            fixed = t.draw(1 << db)
+            if prev is not None and t.draw(2):
+                # a cube that meets the previous group's: same values where
+                # both are fixed
+                pxs, pfixed = prev
+                for b in range(db):
+                    if b not in xs and b not in pxs:
+                        fixed = (fixed & ~(1 << b)) | (pfixed & (1 << b))
+            prev = (xs, fixed)
+            # (all keys of the cube, or only two opposite corners of it)
+            subs = range(1 << k)
+            if g.cube_sparse:
+                c0 = t.draw(1 << k)
+                subs = [c0, c0 ^ ((1 << k) - 1)]
+            for sub in subs:
+                key = fixed
+                for i, b in enumerate(xs):
+                    key = (key & ~(1 << b)) | (((sub >> i) & 1) << b)
+                if key not in used and remaining:
+                    used.add(key)
+                    g.net_keys[remaining.pop()] = (base | key, 0xffffffff)
+        for net in remaining:
+            g.net_keys[net] = (base | spare, 0xffffffff)
+            spare += 1
 
 
 def dense_key(t, g):
